@@ -18,7 +18,9 @@
 EXTENDS SortitionDefs
 
 CONSTANTS WMax,      \* largest stake of the enumeration
-          GenMode    \* "none" | "all"
+          GenMode,   \* "none" | "all"
+          SeqDepth,  \* length of the generated Issue / Verify sequences
+          PrioHashes \* number of hashes per seat count of the priority cases
 
 Ps == {<<1, 10>>, <<1, 4>>, <<1, 2>>, <<9, 10>>, <<1, 1>>, <<99, 100>>, <<1, 1000>>}
 
@@ -41,11 +43,37 @@ Mid(j, w, a, b) == Floor(BigMul(BigAdd(Cdf(j - 1, w, a, b), Cdf(j, w, a, b)), HM
 Switch == Floor(BigMul(BigOfInt(99), HMax), BigOfInt(100))                                \* floor(0.99 * HMax)
 Two(k) == BigPow(BigOfInt(2), k)
 
+(***************************************************************************)
+(* Sequences (one process of the real code, in this order): the state is   *)
+(* the set of (key, seed, index, step) tuples for which a credential has   *)
+(* been issued; Issue(t) evaluates the VRF for t, Verify(c, t) presents    *)
+(* the credential issued for c to the verifier with the inputs t.  Seeds   *)
+(* are variants of one seed A: "first8" differs from A in bytes 0..7 only, *)
+(* "byte8" in byte 8, "last" in byte 31, "other" everywhere.  The verifier *)
+(* must accept exactly when t = c WHATEVER has been evaluated or verified  *)
+(* before (no state may leak between evaluations), and two different       *)
+(* tuples must never get the same VRF output.                              *)
+(***************************************************************************)
+SeedVars == {"A", "first8", "byte8", "last", "other"}
+BaseTup == [k |-> 1, sv |-> "A", ix |-> 1, st |-> 3]
+\* t and its single-field variants
+Near(t) == {t} \cup {[t EXCEPT !.k = 3 - t.k], [t EXCEPT !.ix = 3 - t.ix], [t EXCEPT !.st = 4 - t.st]}
+               \cup { [t EXCEPT !.sv = v] : v \in SeedVars }
+
 Init == \/ \E w \in 1..WMax, p \in Ps : s = [w |-> w, a |-> p[1], b |-> p[2], j |-> 0]
         \/ s = [mode |-> "cred"]
-Next == /\ "j" \in DOMAIN s
-        /\ s.j < s.w
-        /\ s' = [s EXCEPT !.j = s.j + 1]
+        \/ s = [mode |-> "seq", hist |-> <<>>, issued |-> {}]
+NextPt == /\ "j" \in DOMAIN s
+          /\ s.j < s.w
+          /\ s' = [s EXCEPT !.j = s.j + 1]
+IsSeq == "hist" \in DOMAIN s
+Issue(t) == /\ IsSeq /\ Len(s.hist) < SeqDepth
+            /\ s' = [s EXCEPT !.hist = Append(s.hist, [op |-> "issue", t |-> t]), !.issued = s.issued \cup {t}]
+Verify(c, t) == /\ IsSeq /\ Len(s.hist) < SeqDepth /\ c \in s.issued
+                /\ s' = [s EXCEPT !.hist = Append(s.hist, [op |-> "verify", c |-> c, t |-> t])]
+NextSeq == \/ \E t \in Near(BaseTup) : Issue(t)
+           \/ \E c \in (IF IsSeq THEN s.issued ELSE {}) : \E t \in Near(c) : Verify(c, t)
+Next == NextPt \/ NextSeq
 Spec == Init /\ [][Next]_vars
 
 IsPt == "j" \in DOMAIN s
@@ -95,15 +123,34 @@ Points ==
 Params == {<<5, 5, 10>>, <<40, 10, 100>>, <<300, 26, 1000>>, <<8, 9, 10>>, <<30, 2, 30>>, <<7, 12, 12>>}
 Bases == { [k |-> k, sd |-> sd, ix |-> ix, st |-> st, w |-> p[1], a |-> p[2], b |-> p[3]] :
               k \in {1, 2}, sd \in {1, 2}, ix \in {1, 2}, st \in {1, 3}, p \in Params }
-BindingPerts == {"key", "seed", "index", "step", "j+1", "j-1", "proof_first", "proof_mid", "proof_last", "proof_trunc"}
+BindingPerts == {"key", "seed", "seed_first8", "seed_byte8", "seed_last", "index", "step", "j+1", "j-1", "proof_first", "proof_mid", "proof_last", "proof_trunc"}
 ParamPerts == {"stake+1", "stake-1", "stake*2", "total+1", "total*2", "th+1", "th-1", "th*2"}
 PrioPerts == {"prio_flip", "prio_seat"}
-Expect(p) == IF p = "none" THEN "issued" ELSE IF p \in ParamPerts THEN "recompute" ELSE "reject"
+Expect(p) == IF p = "none" THEN "issued" ELSE IF p \in ParamPerts THEN "recompute" ELSE "reject"     \* "j+2", "j=stake": reject
 CredCases == { [kind |-> "C", fn |-> fn, base |-> bs, pert |-> p, expect |-> Expect(p)] :
                  fn \in {"sortition", "priority"}, bs \in Bases, p \in {"none"} \cup BindingPerts \cup ParamPerts }
              \cup { [kind |-> "C", fn |-> "priority", base |-> bs, pert |-> p, expect |-> "reject"] : bs \in Bases, p \in PrioPerts }
 
+\* credentials whose VRF output lies in the top 1% of the range (sd = 0: the driver searches such a seed): the claimed seat count
+\* inflated by one, by two and up to the whole stake must be rejected there as anywhere else
+TailBases == { [k |-> k, sd |-> 0, ix |-> ix, st |-> st, w |-> p[1], a |-> p[2], b |-> p[3]] :
+                 k \in {1, 2}, ix \in {1, 2}, st \in {1, 3}, p \in {<<40, 10, 100>>, <<300, 26, 1000>>, <<8, 9, 10>>, <<12, 20, 30>>} }
+TailCases == { [kind |-> "C", fn |-> fn, base |-> bs, pert |-> p, expect |-> Expect(p)] :
+                 fn \in {"sortition", "priority"}, bs \in TailBases, p \in {"none", "j+1", "j+2", "j=stake", "j-1", "seed_first8"} }
+\* a winner of several hundred seats (stake 1000, p = 1/2): the priority ranges over seat indices that need two bytes
+BigBases == { [k |-> 1, sd |-> sd, ix |-> 1, st |-> 1, w |-> 1000, a |-> 1000, b |-> 2000] : sd \in {1, 2} }
+BigCases == { [kind |-> "C", fn |-> "priority", base |-> bs, pert |-> p, expect |-> Expect(p)] :
+                 bs \in BigBases, p \in {"none", "j+1", "prio_flip", "prio_seat"} }
+\* priority cases: computePriority(hash, j) for chosen seat counts around the one-byte / two-byte boundary of the seat index.
+\* PROTOCOL DEFINITION of the per-seat hash (transcribed from the unchanged computePriority, which prover and verifier share):
+\*   seat i of a winner with VRF output `hash` has the hash keccak256(hash || I2OSP(i)) where I2OSP(i) is the MINIMAL BIG-ENDIAN
+\*   byte string of i (big.Int.Bytes(): empty for i = 0, one byte up to 255, two bytes 0x01 0x00 for 256, ...);
+\*   the priority is the largest of these over i = 0..j, compared as 256-bit big-endian integers.
+PrioSeats == {0, 1, 2, 255, 256, 257, 300, 500, 511, 512, 513, 600}
+PrioCases == { [kind |-> "Q", hid |-> x, j |-> j] : x \in 1..PrioHashes, j \in PrioSeats }
+
 Leaf == (GenMode = "all") =>
           IF IsPt THEN \A r \in Points : PrintT("@@J " \o ToJson(r))
-          ELSE \A r \in CredCases : PrintT("@@J " \o ToJson(r))
+          ELSE IF IsSeq THEN (Len(s.hist) = SeqDepth => PrintT("@@J " \o ToJson([kind |-> "S", ops |-> s.hist])))
+          ELSE \A r \in CredCases \cup TailCases \cup BigCases \cup PrioCases : PrintT("@@J " \o ToJson(r))
 =============================================================================
